@@ -395,15 +395,16 @@ class Impl(object):
             return (Q.And if t[0] == "and" else Q.Or)(*[self.xbuild(k, names) for k in t[1]])
         i = t[2]
         conv = lambda x: self.const(i, x)       # noqa: E731
+        sfx = "_" + self.kinds[i][0]
         if t[0] == "range":
             _, neg, _, lo, hi, el, eh = t
-            return (Q.NotInRange if neg else Q.InRange)(self.idx[i], xparse_val(lo, names, conv),
-                                                        xparse_val(hi, names, conv), bool(el), bool(eh))
+            return (Q.NotInRange if neg else Q.InRange)(self.idx[i], xparse_val(lo, names, conv, sfx),
+                                                        xparse_val(hi, names, conv, sfx), bool(el), bool(eh))
         _, c, _, tag, v = t
         if tag == "one":
-            val = xparse_val(v, names, conv)
+            val = xparse_val(v, names, conv, sfx)
         else:
-            val = [xparse_val(x, names, conv) for x in v]
+            val = [xparse_val(x, names, conv, sfx) for x in v]
             if tag == "manyt":
                 val = tuple(val)
             elif tag == "manyn":
@@ -569,7 +570,7 @@ def xnum(s):
     return None if s == "N" else float(s) if "." in s else int(s)
 
 
-def xparse_val(tok, names, conv):
+def xparse_val(tok, names, conv, sfx=""):
     """token -> Python constant; `conv` maps a plain token to the index's value space (field: number,
     keyword: 'k<n>'); Names are registered in `names`"""
     from hypatia import RangeValue
@@ -579,7 +580,8 @@ def xparse_val(tok, names, conv):
     if tok[0] == "n":
         k, rest = tok[1:].split("=", 1)
         # the name carries its binding (one name = one value within a query; the same name may occur twice)
-        key = "x%s_%s" % (k, rest)
+        # (and one value space: the suffix names the kind of index the constant is for)
+        key = "x%s_%s%s" % (k, rest, sfx)
         names[key] = xparse_val(int(rest) if rest.lstrip("-").isdigit() else rest, names, conv)
         return Name(key)
     if tok[0] == "f":
